@@ -142,7 +142,7 @@ class EdgeQLSourceGenerator(codegen.SourceGenerator):
         parent: Optional[qlast.Base] = node._parent
         return (
             parent is not None
-            and not isinstance(parent, qlast.DDL)
+            and not isinstance(parent, (qlast.DDL, qlast.ExplainStmt))
             # Non-union FOR bodies can't have parens
             and not (
                 isinstance(parent, qlast.ForQuery)
@@ -334,6 +334,8 @@ class EdgeQLSourceGenerator(codegen.SourceGenerator):
         self._visit_aliases(node)
 
         self._write_keywords('FOR ')
+        if node.optional:
+            self._write_keywords('OPTIONAL ')
         self.write(ident_to_str(node.iterator_alias))
         self._write_keywords(' IN ')
         self.visit(node.iterator)
@@ -1169,11 +1171,25 @@ class EdgeQLSourceGenerator(codegen.SourceGenerator):
                 f'unknown branch command flavor: {node.flavor!r}'
             )
 
+    def _visit_branch_options(
+        self, node: qlast.AlterDatabase | qlast.DropDatabase
+    ) -> None:
+        if node.force:
+            self._write_keywords(' FORCE')
+
     def visit_AlterDatabase(self, node: qlast.AlterDatabase) -> None:
-        self._visit_AlterObject(node, node.flavor)
+        self._visit_AlterObject(
+            node,
+            node.flavor,
+            after_name=lambda: self._visit_branch_options(node),
+        )
 
     def visit_DropDatabase(self, node: qlast.DropDatabase) -> None:
-        self._visit_DropObject(node, node.flavor)
+        self._visit_DropObject(
+            node,
+            node.flavor,
+            after_name=lambda: self._visit_branch_options(node),
+        )
 
     def visit_CreateRole(self, node: qlast.CreateRole) -> None:
         after_name = lambda: self._ddl_visit_bases(node)
@@ -1279,7 +1295,12 @@ class EdgeQLSourceGenerator(codegen.SourceGenerator):
         self,
         node: qlast.DropExtension,
     ) -> None:
-        self._visit_DropObject(node, 'EXTENSION')
+        def after_name() -> None:
+            if node.version is not None:
+                self._write_keywords(' VERSION ')
+                self.visit(node.version)
+
+        self._visit_DropObject(node, 'EXTENSION', after_name=after_name)
 
     def visit_CreateFuture(
         self,
@@ -2556,6 +2577,17 @@ class EdgeQLSourceGenerator(codegen.SourceGenerator):
     def visit_ReleaseSavepoint(self, node: qlast.ReleaseSavepoint) -> None:
         self._write_keywords('RELEASE SAVEPOINT ')
         self.write(node.name)
+
+    def visit_ExplainStmt(self, node: qlast.ExplainStmt) -> None:
+        self._write_keywords('ANALYZE ')
+        if node.args is not None:
+            self.visit(node.args)
+            self.write(' ')
+        self.visit(node.query)
+
+    def visit_AdministerStmt(self, node: qlast.AdministerStmt) -> None:
+        self._write_keywords('ADMINISTER ')
+        self.visit(node.expr)
 
     def visit_DescribeStmt(self, node: qlast.DescribeStmt) -> None:
         self._write_keywords('DESCRIBE ')
